@@ -1,5 +1,6 @@
 """C01 — MetricFrame disaggregation is exact: each cell is the metric on that subgroup."""
 import itertools
+import json
 from fractions import Fraction as F
 
 import numpy as np
@@ -22,6 +23,75 @@ EXPECTED_TYPES = {  # (bare?, has control features) -> (by_group type, overall t
 
 def dy(rng, hi=24):
     return str(F(rng.randint(1, hi), rng.choice([1, 1, 2, 4, 8])))
+
+
+# sha256 of lean/FairModel/Generated/FrameSrc.lean as translated from the pinned tree (see c14.PINNED_SRC_SHA256 for the rule)
+PINNED_FRAMESRC_SHA256 = "3c7ea25009112ec4957c80800624a77a455fea221e222a83cc2cc6613798e043"
+_SRC_STATE = {}
+
+
+def framesrc_changed():
+    if "v" not in _SRC_STATE:
+        import hashlib
+        import os
+        from .. import leanrun
+        path = os.path.join(leanrun.LEAN, "FairModel", "Generated", "FrameSrc.lean")
+        try:
+            with open(path, "rb") as f:
+                _SRC_STATE["v"] = hashlib.sha256(f.read()).hexdigest() != PINNED_FRAMESRC_SHA256
+        except OSError:
+            _SRC_STATE["v"] = False
+    return _SRC_STATE["v"]
+
+
+def kw_sum(y_true, y_pred, **kw):
+    """pool metric `kwsum`: accepts ANY keyword names; the sum of all keyword arrays (injective in the rows for ids=2^i)"""
+    return float(sum(np.sum(np.asarray(v, dtype=float)) for v in kw.values()))
+
+
+def spec_params(spec):
+    """ordered (keyword name, values or None) of one metric spec, exactly as mfcommon.sample_params_of builds the dict"""
+    if spec["tag"] == "kwsum":
+        return [(k, v) for k, v in spec["kw"].items()]
+    out = []
+    if (len(spec.get("w") or ()) + len(spec.get("ids") or ())) % 2 == 1:
+        out.append(("unused", None))
+    for key, nm in (("w", "sample_weight"), ("ids", "ids"), ("a", "a")):
+        if spec.get(key) is not None:
+            out.append((nm, spec[key]))
+    return out
+
+
+def sample_params_for(spec, index=None):
+    if spec["tag"] == "kwsum":
+        wrap = (lambda a: pd.Series(a, index=index)) if index is not None else (lambda a: a)
+        return {k: (None if v is None else wrap(np.array([float(F(x)) for x in v]))) for k, v in spec["kw"].items()}
+    return mc.sample_params_of(spec, index)
+
+
+def pyfunc_for(tag):
+    return kw_sum if tag == "kwsum" else mc.pyfunc(tag)
+
+
+def p0p1_for(spec, n):
+    """(driver metric tag, p0, p1) of the single-metric model line: kwsum = sum over rows of the row-wise keyword sum"""
+    if spec["tag"] == "kwsum":
+        p1 = [sum((F(v[i]) for v in spec["kw"].values() if v is not None), F(0)) for i in range(n)]
+        return "fprows", [F(1)] * n, p1
+    p0, p1 = mc.p0p1(spec, n)
+    return spec["tag"], p0, p1
+
+
+def column_names(case):
+    """the all_data column names MetricFrame creates for the sample parameters of a case (f"{name}_{param}")"""
+    names = [None] if case["bare"] else list(case["names"])
+    return [f"{nm}_{pn}" for nm, s in zip(names, case["specs"]) for pn, v in spec_params(s) if v is not None]
+
+
+def columns_collide(case):
+    """the hypothesis `ColsOK` of C01.multi_column_eq_single fails: two sample parameters share a column (finding F17)"""
+    cols = column_names(case) + ["y_true", "y_pred"]
+    return len(set(cols)) != len(cols)
 
 
 @register
@@ -91,7 +161,53 @@ class CHECK(Check):
             spec["a"] = [str(rng.randint(-3, 7)) for _ in range(n)]
         return spec
 
+    extended = False   # set by corpus_cases(): only the C01 run itself draws the multi-metric stream (C02/C12 reuse generate())
+
+    def corpus_cases(self):
+        self.extended = True
+        return super().corpus_cases()
+
+    def _multi_case(self, rng, base):
+        """dict of 1..4 metrics with DIFFERENT sample params per metric (one of them without any), incl. the free-keyword
+        metric kwsum, metric names that are prefixes of each other, and (rarely) names whose columns collide (F17)"""
+        n = len(base["y"])
+        k = rng.choice([1, 2, 2, 3, 3, 4, 4])
+        names = rng.sample(["m0", "m1", "acc", "my metric", "a", "a_b", "a_b_c", "sample", "m0_ids", "None"], k)
+        specs = []
+        binary = all(v in (0, 1) for v in base["y"]) and all(v in (0, 1) for v in base["pred"])
+        ids = [str(2 ** i) for i in range(min(n, 40))]
+        for j in range(k):
+            r = rng.random()
+            if r < 0.35:
+                kws = rng.sample(["w", "c", "b_c", "ids", "sample_weight", "weight", "b"], rng.choice([1, 1, 2, 3]))
+                kw = {}
+                for q in kws:
+                    kw[q] = None if rng.random() < 0.1 else ([str(int(x) * rng.choice([1, 3, 5])) for x in ids] if rng.random() < 0.6
+                                                              else [str(rng.randint(-3, 9)) for _ in range(n)])
+                specs.append({"tag": "kwsum", "w": None, "ids": None, "a": None, "kw": kw})
+            else:
+                specs.append(self._metric_spec(rng, n, binary, allow_ns=False))
+        if k >= 2 and all(spec_params(s_) for s_ in specs):
+            j = rng.randrange(k)        # one metric with no sample parameters at all
+            specs[j] = {"tag": "count", "w": None, "ids": None, "a": None}
+        c = dict(base, bare=False, specs=specs, names=names)
+        if rng.random() < 0.04 and n <= 40:   # colliding column names: "a"+"b_c" vs "a_b"+"c"
+            c["names"] = ["a", "a_b"] + [x for x in names if x not in ("a", "a_b")][:k - 2] if k >= 2 else ["a"]
+            c["specs"] = [{"tag": "kwsum", "w": None, "ids": None, "a": None, "kw": {"b_c": ids[:n]}},
+                          {"tag": "kwsum", "w": None, "ids": None, "a": None, "kw": {"c": [str(3 * int(x)) for x in ids[:n]]}}] + specs[2:]
+            c["specs"] = c["specs"][:len(c["names"])]
+            c["names"] = c["names"][:len(c["specs"])]
+        return c
+
     def generate(self, rng, tier):
+        base_gen = self._generate_base(rng, tier)
+        while True:
+            c = next(base_gen)
+            if self.extended and rng.random() < 0.3 and len(c["y"]) <= 40:
+                c = self._multi_case(rng, c)
+            yield c
+
+    def _generate_base(self, rng, tier):
         while True:
             n = rng.choice([1, 1, 2, 2, 3, 3, 4, 5, 6, 7, 8, 10, 12, 16, 24, 40])
             nsf = rng.choice([1, 1, 1, 2, 2, 3])
@@ -142,7 +258,9 @@ class CHECK(Check):
             c["pred"] = c["pred"][:i] + c["pred"][i + 1:]
             c["sf"] = [col[:i] + col[i + 1:] for col in c["sf"]]
             c["cf"] = [col[:i] + col[i + 1:] for col in c["cf"]]
-            c["specs"] = [{k: (v[:i] + v[i + 1:] if isinstance(v, list) else v) for k, v in s.items()} for s in c["specs"]]
+            cut = (lambda v: v[:i] + v[i + 1:] if isinstance(v, list) else
+                   ({a: cut(b) for a, b in v.items()} if isinstance(v, dict) else v))
+            c["specs"] = [{k: cut(v) for k, v in s.items()} for s in c["specs"]]
             return c
         if len(case["specs"]) > 1:
             for j in range(len(case["specs"])):
@@ -193,11 +311,11 @@ class CHECK(Check):
         if case["cf"]:
             kw["control_features"] = mc.feature_arg(case["cf"], case["cf_names"], case["cf_container"], index)
         if case["bare"]:
-            metrics = mc.pyfunc(case["specs"][0]["tag"])
-            sp = mc.sample_params_of(case["specs"][0], index)
+            metrics = pyfunc_for(case["specs"][0]["tag"])
+            sp = sample_params_for(case["specs"][0], index)
         else:
-            metrics = {nm: mc.pyfunc(s["tag"]) for nm, s in zip(case["names"], case["specs"])}
-            sp = {nm: mc.sample_params_of(s, index) for nm, s in zip(case["names"], case["specs"])}
+            metrics = {nm: pyfunc_for(s["tag"]) for nm, s in zip(case["names"], case["specs"])}
+            sp = {nm: sample_params_for(s, index) for nm, s in zip(case["names"], case["specs"])}
             if all(not v for v in sp.values()) and case["perm_seed"] % 2 == 0:
                 sp = None
         return MetricFrame(metrics=metrics, y_true=y, y_pred=pred, sensitive_features=sfa, sample_params=sp, **kw)
@@ -231,8 +349,16 @@ class CHECK(Check):
         cols = " ".join(proto.strs(c) for c in self._cols(case))
         ls = []
         for s in case["specs"]:
-            p0, p1 = mc.p0p1(s, n)
-            ls.append(f"frame.eval {s['tag']} {len(case['cf'])} {ys} {ps} {proto.lst(p0)} {proto.lst(p1)} {cols}")
+            tag, p0, p1 = p0p1_for(s, n)
+            ls.append(f"frame.eval {tag} {len(case['cf'])} {ys} {ps} {proto.lst(p0)} {proto.lst(p1)} {cols}")
+        # the whole dict at once through the multi-metric model (Model/FrameMulti.lean over Generated/FrameSrc.lean):
+        # one shared all_data table, columns f"{name}_{param}", every metric reading its keyword arrays from it
+        parts = []
+        for nm, s in zip(self._names(case), case["specs"]):
+            pr = spec_params(s)
+            parts.append(" ".join([proto.s(nm), "none" if case["bare"] else proto.s(nm), s["tag"], str(len(pr))]
+                                  + [f"{proto.s(pn)} {'none' if v is None else proto.lst([F(x) for x in v])}" for pn, v in pr]))
+        ls.append(f"fm.eval {len(case['cf'])} {ys} {ps} {len(case['specs'])} {' '.join(parts)} {cols}")
         return ls
 
     # ---------------------------------------------------------------- oracle
@@ -241,17 +367,17 @@ class CHECK(Check):
         n = len(case["y"])
         ncf = len(case["cf"])
         cols = self._cols(case)
-        p0, p1 = mc.p0p1(spec, n)
+        otag, p0, p1 = p0p1_for(spec, n)
         rows = [(F(case["y"][i]), F(case["pred"][i]), p0[i], p1[i]) for i in range(n)]
         keys = [tuple(c[i] for c in cols) for i in range(n)]
         levels = [sorted(set(c)) for c in cols]
         by, ov = {}, {}
         for k in itertools.product(*levels):
             sl = [rows[i] for i in range(n) if keys[i] == k]
-            by[k] = mc.oracle_metric(spec["tag"], sl) if sl else mc.NAN
+            by[k] = mc.oracle_metric(otag, sl) if sl else mc.NAN
         for c in itertools.product(*levels[:ncf]):
             sl = [rows[i] for i in range(n) if keys[i][:ncf] == c]
-            ov[c] = mc.oracle_metric(spec["tag"], sl) if sl else mc.NAN
+            ov[c] = mc.oracle_metric(otag, sl) if sl else mc.NAN
         return by, ov
 
     def judge(self, case, o, mo):
@@ -304,11 +430,57 @@ class CHECK(Check):
                     for label, tab, mt in (("by_group", got["by_group"], mby), ("overall", got["overall"], mov)):
                         if [tuple(k) for k, _ in tab] != list(mt.keys()) or any(not mc.same(v, mt[tuple(k)]) for k, v in tab):
                             probs.append(Problem("correspondence", f"{nm}.{label}: impl {tab[:6]} vs model {list(mt.items())[:6]}", "C01.model"))
+        if mo is not None and len(mo) > len(case["specs"]):
+            probs.extend(self.judge_multi(case, o, mo[len(case["specs"])], any(p.kind == "property" for p in probs)))
+        return probs
+
+    def judge_multi(self, case, o, line, oracle_failed):
+        """the dict of metrics evaluated at once by Model/FrameMulti.lean (shared all_data table, generated column names,
+        generated AnnotatedMetricFunction.__call__ / apply_to_dataframe / create): every column must equal the single-metric
+        oracle of that function with exactly its own sample params (C01.multi_column_eq_single) unless two column names
+        collide (then the model mirrors the code's shadowing and the oracle decides: finding F17)."""
+        probs = []
+        t = line.split(" ")
+        names = self._names(case)
+        if line == "bad-op" or len(t) != 2 + 3 * len(names):
+            return [Problem("harness", f"fm.eval output {line[:200]!r}")]
+        bkeys = [tuple(k) for k in mc.parse_keys(t[0])]
+        okeys = [tuple(k) for k in mc.parse_keys(t[1])]
+        if len(case["cf"]) == 0:
+            okeys = [()]
+        collide = columns_collide(case)
+        for j, (nm, spec) in enumerate(zip(names, case["specs"])):
+            if proto.p_s(t[2 + 3 * j]) != nm:
+                probs.append(Problem("harness", f"fm.eval column order: {t[2 + 3 * j]} for {nm}"))
+                continue
+            cells = lambda tok: ["missing" if c == "missing" else mc.model_tok(c) for c in tok.split(",")]  # noqa: E731
+            mby = dict(zip(bkeys, cells(t[3 + 3 * j])))
+            mov = dict(zip(okeys, cells(t[4 + 3 * j])))
+            by, ov = self.oracle(case, spec)
+            if (mby != by or mov != ov) and not collide:
+                msg = f"{nm}: multi-metric model {dict(list(mby.items())[:4])} / {mov} vs oracle {dict(list(by.items())[:4])} / {ov}"
+                if framesrc_changed():
+                    probs.append(Problem("correspondence", "the translated source departs from the first-principles oracle "
+                                         "(MetricFrame sources changed): " + msg, "C01.generated-source-vs-oracle"))
+                else:
+                    probs.append(Problem("harness", msg))
+            if not oracle_failed or collide:
+                got = o["metrics"][nm]
+                for label, tab, mt in (("by_group", got["by_group"], mby), ("overall", got["overall"], mov)):
+                    if [tuple(k) for k, _ in tab] != list(mt.keys()) or any(not mc.same(v, mt[tuple(k)]) for k, v in tab):
+                        probs.append(Problem("correspondence", f"{nm}.{label}: impl {tab[:6]} vs multi-metric model "
+                                             f"{list(mt.items())[:6]}", "C01.multi_model"))
         return probs
 
     def known(self, case, problem, entries):
         """F9: a 1-row dataset whose features come as a numpy array is rejected (np.squeeze drops the only axis).
         Exactly that shape: one row, an ndarray feature container, the constructor raising ValueError."""
+        if problem.kind == "property" and problem.relation in ("C01.byGroup_cell", "C01.overall_eq", "C01.byGroup_empty") \
+                and columns_collide(case):
+            # F17: two sample parameters of a dict of metrics share the all_data column f"{name}_{param}"; exactly that shape
+            for e in entries:
+                if e["id"] == "F17":
+                    return e
         if problem.relation == "C01.accepts" and len(case["y"]) == 1 and "ValueError" in problem.msg \
                 and "ndarray" in (case["sf_container"], case["cf_container"]):
             for e in entries:
@@ -343,9 +515,18 @@ class CHECK(Check):
             tags.append("int_feature")
         for s in case["specs"]:
             tags.append("metric=" + s["tag"])
-            tags.append("params=" + str(sum(s.get(k) is not None for k in ("w", "ids", "a"))))
+            tags.append("params=" + str(sum(v is not None for _, v in spec_params(s))))
+        if not case["bare"] and len(case["specs"]) >= 2:
+            pc = [sum(v is not None for _, v in spec_params(s)) for s in case["specs"]]
+            if 0 in pc and max(pc) > 0:
+                tags.append("multi:one_metric_without_params")
+            if len({tuple(pn for pn, v in spec_params(s) if v is not None) for s in case["specs"]}) > 1:
+                tags.append("multi:different_params_per_metric")
+        if columns_collide(case):
+            tags.append("multi:column_names_collide(F17)")
         if "crash" in o:
             tags.append("crash=" + str(o.get("crash")))
         key = (tuple(map(tuple, cols)), tuple(case["y"]), tuple(case["pred"]),
-               tuple((s["tag"], tuple(s["w"] or ()), tuple(s["a"] or ())) for s in case["specs"]), case["bare"])
+               tuple((s["tag"], tuple(s["w"] or ()), tuple(s["a"] or ()), json.dumps(s.get("kw"), sort_keys=True)) for s in case["specs"]),
+               case["bare"], tuple(case["names"] or ()))
         return key, n >= 2, tags
